@@ -8,10 +8,11 @@ Property theorems only.  Model: `Sched/Model.lean`, with the D10 repair (`update
 `Doomed n` = some node upstream of `n` has a failed job.  Failing bodies are those for which the schedule
 plays `finishErr`; the theorems hold for EVERY schedule, so for every fail set and every completion order.
 
-PARTIAL with respect to the property as stated ("whatever the timing of job completions"): the model interleaves
-environment moves with the loop at poll granularity — nothing changes on disk while `get_runnable_tasks` runs.  The
-code does not guarantee this, and a job that fails *during* a poll can abort the whole workflow (known finding D34,
-`C14_stale_tables_witness`).  `C14_full` is the property for all schedules in which no job fails during a poll.
+Granularity: the model interleaves environment moves with the loop at poll granularity — nothing changes on disk
+while `get_runnable_tasks` runs.  The code does not guarantee this; before the D64 repair a job that failed *during*
+a poll could abort the whole workflow (`C14_stale_tables_witness`).  After the repair `get_runnable_tasks` refreshes
+every predecessor first and decides from that one snapshot (`C14_stale_tables_regression`); the gated witness on the
+real code is a regression case of the check.
 -/
 namespace PydraModel.Sched
 open PydraModel.Graph
@@ -120,27 +121,27 @@ example : ∃ o st, NormalEnd wfD10 none [0, 1, 2, 4, 3] schedD10 o st ∧
   | cont st => rw [h0] at key; simp at key
   | bad => rw [h0] at key; simp at key
 
-/-! ### the modelling assumption "a poll is atomic" and the known finding D34 -/
+/-! ### the modelling assumption "a poll is atomic" and the repaired defect D64 -/
 
 /-- p = 0 with one job that was seen running; n = 1 consumes p -/
 def wfPN : Wf := ⟨⟨[0, 1], [(0, 1)], [], none⟩, fun n _ => [n], fun c => c⟩
 
 def nsStale : NSMap := ⟨fun n => if n = 0 then ⟨some [], [], [0], [], [], false, [0]⟩ else NS.init⟩
 
-/-- WITNESS for the modelling assumption "a poll is atomic" (known finding D34): if the job of `p` fails after
-    `p`'s tables were refreshed but before `n`'s `get_runnable_tasks` runs (so the tables it inspects are not up to
-    date with the ground truth), `n` passes the `p.errored or p.unrunnable` test, `all(p.done)` then records the failure
-    and reports `p` done, and `n` is started behind a failed job — which `start()` cannot survive in the code -/
+/-- WITNESS (repaired defect D64, the order of tests before the repair): if the job of `p` fails after `p`'s tables
+    were refreshed but before `n`'s `get_runnable_tasks` runs (a change on disk *during* a poll), the old code tested
+    `p.errored or p.unrunnable` on the stale tables, `all(p.done)` then recorded the failure and reported `p` done, and
+    `n` was started behind a failed job — which `start()` does not survive: the workflow aborted -/
 theorem C14_stale_tables_witness :
     let w2 : World := fun c => if c = 0 then .err else .idle
-    let r := nodeRunnable wfPN w2 nsStale 1
+    let r := nodeRunnableOld wfPN w2 nsStale 1
     ((r.1.get 1).blk, (r.1.get 1).unrunnable, (r.1.get 0).errored, r.2) = (some [], false, [0], [0]) := by decide
 
-/-- with up-to-date tables (what `nodeRunnable_spec` assumes and an atomic poll guarantees) the same node is
-    marked unrunnable instead -/
-theorem C14_fresh_tables_regression :
+/-- REGRESSION of D64 (repaired): the current order refreshes every predecessor first and takes both decisions
+    from that snapshot; on the same stale tables `n` is marked unrunnable -/
+theorem C14_stale_tables_regression :
     let w2 : World := fun c => if c = 0 then .err else .idle
-    let r := nodeRunnable wfPN w2 (upd w2 nsStale 0) 1
+    let r := nodeRunnable wfPN w2 nsStale 1
     ((r.1.get 1).blk, (r.1.get 1).unrunnable, (r.1.get 0).errored, r.2) = (some [], true, [0], []) := by decide
 
 end PydraModel.Sched
